@@ -126,6 +126,16 @@ func VH_C06_two_handles() {
 		if !done {
 			continue
 		}
+		if step < 2 {
+			// judged only as the LAST step of a schedule (every operation is the
+			// last step of some schedule); earlier losses are repaired so that the
+			// last step is judged on its own
+			if !held {
+				h1.RUnlock()
+				verifNoErr(h1.RLock(), "h1 re-locks")
+			}
+			continue
+		}
 		switch op {
 		case 0:
 			verifAssert(held, "h1's SHARED lock survives opening another handle on the file in the same process")
@@ -135,9 +145,6 @@ func VH_C06_two_handles() {
 			verifAssert(held, "h1's SHARED lock survives RUnlock on another handle of the same process")
 		case 3:
 			verifAssert(held, "h1's SHARED lock survives Close of another handle of the same process")
-		}
-		if !held {
-			break // one finding per schedule
 		}
 	}
 	h1.RUnlock()
